@@ -29,6 +29,35 @@ def uf(name, *sorts):
     return UF[name]
 
 
+UF_ORACLES = {}  # uf name -> python function computing the real library's value on concrete arguments
+
+
+def eval_oracles(t, rounds=6):
+    """Replace every application of an oracle'd uninterpreted function to concrete arguments by the real library's
+    value (innermost first). Only used to obtain replayable models (vc.Explorer.realistic_model), never for proving."""
+    for _ in range(rounds):
+        subst, seen, stack = [], set(), [t]
+        while stack:
+            x = stack.pop()
+            if x.get_id() in seen or not z3.is_app(x):
+                continue
+            seen.add(x.get_id())
+            stack.extend(x.children())
+            d = x.decl()
+            if d.kind() == z3.Z3_OP_UNINTERPRETED and x.num_args() > 0 and d.name() in UF_ORACLES:
+                args = [simp(a) for a in x.children()]
+                if all(z3.is_int_value(a) or z3.is_string_value(a) or z3.is_true(a) or z3.is_false(a) for a in args):
+                    py = [a.as_long() if z3.is_int_value(a) else str_value_to_pystr(a) if z3.is_string_value(a) else z3.is_true(a) for a in args]
+                    r = UF_ORACLES[d.name()](*py)
+                    rs = d.range()
+                    val = z3.BoolVal(bool(r)) if rs == z3.BoolSort() else z3.IntVal(int(r)) if rs == z3.IntSort() else z3.StringVal(r) if isinstance(r, str) else bytes_val(bytes(r))
+                    subst.append((x, val))
+        if not subst:
+            return t
+        t = simp(z3.substitute(t, *subst))
+    return t
+
+
 def int_to_str(t):
     """str(n) for any int n (z3's int.to.str is only defined for n >= 0)."""
     return z3.If(t >= 0, z3.IntToStr(t), z3.Concat(z3.StringVal("-"), z3.IntToStr(-t)))
@@ -64,7 +93,21 @@ def bit_and_const(t, mask: int):
     return out
 
 
+_BINOP_DUNDER = {ast.Add: "add", ast.Sub: "sub", ast.Mult: "mul", ast.Div: "truediv", ast.FloorDiv: "floordiv", ast.Mod: "mod",
+                 ast.BitAnd: "and", ast.BitOr: "or", ast.BitXor: "xor", ast.LShift: "lshift", ast.RShift: "rshift", ast.MatMult: "matmul"}
+
+
 def binop(it, op, a, b):
+    # user-defined operators on objects of repo classes: a.__op__(b), then b.__rop__(a)
+    if (isinstance(a, SObj) or isinstance(b, SObj)) and type(op) in _BINOP_DUNDER:
+        nm = _BINOP_DUNDER[type(op)]
+        for o, other, name in ((a, b, f"__{nm}__"), (b, a, f"__r{nm}__")):
+            if isinstance(o, SObj):
+                m = it.find_method(o.cls, name)
+                if m is not None:
+                    r = it.resolve(it.call_ifunc(m, [o, other], {}))
+                    if not (isinstance(r, SConst) and r.obj is NotImplemented):
+                        return r
     # enums / flags
     if isinstance(a, SEnum) or isinstance(b, SEnum):
         ea = a if isinstance(a, SEnum) else b
@@ -407,6 +450,17 @@ def getitem(it, o, node):
     return getitem_v(it, o, idx)
 
 
+def pc_slice(it, o, lo, hi):
+    """Opt-in (scenario option pc_slices=True): o[lo:hi] without the clamping ITEs when the path condition implies
+    0 <= lo <= len(o) and lo <= hi; under these facts o[lo:hi] = substr(o, lo, hi - lo) (substr stops at the end)."""
+    n = slen(o.t)
+    a = z3.IntVal(0) if lo is None or isinstance(lo, SNoneT) else _zi(lo)
+    b = n if hi is None or isinstance(hi, SNoneT) else _zi(hi)
+    if it.ex.feasible(z3.Not(z3.And(a >= 0, a <= n, b >= a))):
+        return None
+    return simp(ssub(o.t, simp(a), simp(b - a)))
+
+
 def getitem_v(it, o, idx):
     if isinstance(idx, slice):
         lo = it.resolve(idx.start) if idx.start is not None else None
@@ -417,6 +471,10 @@ def getitem_v(it, o, idx):
                 return type(o)(o.items[:: st.concrete()])
             raise Unsupported("slice step")
         if isinstance(o, (SStr, SBytes)):
+            if getattr(it.ex, "pc_slices", False):
+                t = pc_slice(it, o, lo, hi)
+                if t is not None:
+                    return type(o)(t)
             return type(o)(simp(slice_term(o.t, lo, hi)))
         if isinstance(o, (STuple, SList)):
             lc = None if lo is None or isinstance(lo, SNoneT) else lo.concrete()
@@ -572,6 +630,11 @@ def dict_find(it, d, key):
 def dict_get(it, d, key):
     i = dict_find(it, d, key)
     if i is None:
+        df = getattr(d, "default_factory", None)  # collections.defaultdict model (libx_http2.SDefaultDict): __missing__
+        if df is not None:
+            v = it.resolve(it.call_value(df, [], {}))
+            d.items.append((key, v))
+            return v
         it.raise_(KeyError, key)
     return d.items[i][1]
 
@@ -1248,6 +1311,8 @@ def f_id(it, x):
 @function(callable)
 def f_callable(it, x):
     x = it.resolve(x)
+    if isinstance(x, SObj):
+        return SBool(it.find_in_mro(x.cls, "__call__")[0] is not None)
     return SBool(isinstance(x, (SBound, I.IFunc)) or (isinstance(x, SConst) and (callable(x.obj) or (isinstance(x.obj, tuple) and x.obj[0] == "ifunc"))))
 
 
@@ -1314,6 +1379,7 @@ def f_int(it, x=None, base=None):
         if it.branch(SBool(digits)):
             return SInt(z3.StrToInt(x.t))
         ok = uf("int_parsable_nondigit", _S, z3.BoolSort())(x.t)
+        it.ex.assume(z3.Implies(ok, z3.Length(x.t) > 0))  # int("") / int(b"") always raises ValueError
         if it.branch(SBool(ok)):
             return SInt(uf("int_parse_nondigit", _S, _I)(x.t))
         it.raise_(ValueError, "invalid literal for int()")
